@@ -184,8 +184,9 @@ class Ctx:
             "wall_s": round(wall, 3),
             "violations": len(self.violations),
         }
-        os.makedirs(os.path.join(VERIF, "evidence"), exist_ok=True)
-        path = os.path.join(VERIF, "evidence", f"{self.pid}.json")
+        evdir = os.environ.get("VERIF_EVIDENCE_DIR") or os.path.join(VERIF, "evidence")
+        os.makedirs(evdir, exist_ok=True)
+        path = os.path.join(evdir, f"{self.pid}.json")
         with open(path + ".tmp", "w") as f:
             json.dump(ev, f, indent=1, default=_jsonable)
         os.replace(path + ".tmp", path)
@@ -229,7 +230,7 @@ def load_known(pid):
 
 
 def write_replay(pid, key, what, data):
-    d = os.path.join(VERIF, "replays", pid)
+    d = os.path.join(os.environ.get("VERIF_REPLAY_DIR") or os.path.join(VERIF, "replays"), pid)
     os.makedirs(d, exist_ok=True)
     name = "".join(c if c.isalnum() or c in "-_." else "_" for c in key)[:80]
     name = f"{name}-{stable_key(key)[:8]}.json"
